@@ -106,6 +106,119 @@ theorem c05_xmin_xmax (model : K → K) (cpk : K) (w : Option K) (k : K) (hk : 0
     | none => rfl
     | some m => simp [mul_div_cancel_left₀ _ hk.ne']
 
+/-- `lmin` really is the minimum: an element of the list that bounds every element from below -/
+theorem lmin_spec (l : List K) (m : K) (h : lmin l = some m) : m ∈ l ∧ ∀ v ∈ l, m ≤ v := by
+  induction l generalizing m with
+  | nil => simp [lmin] at h
+  | cons x xs ih =>
+    simp only [lmin] at h
+    cases hxs : lmin xs with
+    | none =>
+      rw [hxs] at h
+      have hm : x = m := by simpa using h
+      subst hm
+      cases xs with
+      | nil => simp
+      | cons y ys => simp only [lmin] at hxs; cases hys : lmin ys <;> simp [hys] at hxs
+    | some m' =>
+      rw [hxs] at h
+      have hm : min x m' = m := by simpa using h
+      obtain ⟨hmem, hle⟩ := ih m' hxs
+      subst hm
+      constructor
+      · rcases min_choice x m' with h1 | h1
+        · rw [h1]; exact List.mem_cons_self
+        · rw [h1]; exact List.mem_cons_of_mem _ hmem
+      · intro v hv
+        rcases List.mem_cons.mp hv with rfl | hv
+        · exact min_le_left _ _
+        · exact le_trans (min_le_right _ _) (hle v hv)
+
+theorem lmax_spec (l : List K) (m : K) (h : lmax l = some m) : m ∈ l ∧ ∀ v ∈ l, v ≤ m := by
+  induction l generalizing m with
+  | nil => simp [lmax] at h
+  | cons x xs ih =>
+    simp only [lmax] at h
+    cases hxs : lmax xs with
+    | none =>
+      rw [hxs] at h
+      have hm : x = m := by simpa using h
+      subst hm
+      cases xs with
+      | nil => simp
+      | cons y ys => simp only [lmax] at hxs; cases hys : lmax ys <;> simp [hys] at hxs
+    | some m' =>
+      rw [hxs] at h
+      have hm : max x m' = m := by simpa using h
+      obtain ⟨hmem, hle⟩ := ih m' hxs
+      subst hm
+      constructor
+      · rcases max_choice x m' with h1 | h1
+        · rw [h1]; exact List.mem_cons_self
+        · rw [h1]; exact List.mem_cons_of_mem _ hmem
+      · intro v hv
+        rcases List.mem_cons.mp hv with rfl | hv
+        · exact le_max_left _ _
+        · exact le_trans (hle v hv) (le_max_right _ _)
+
+theorem lmin_isSome_of_ne_nil (l : List K) (h : l ≠ []) : ∃ m, lmin l = some m := by
+  cases l with
+  | nil => exact absurd rfl h
+  | cons x xs => simp only [lmin]; cases lmin xs <;> simp
+
+theorem lmax_isSome_of_ne_nil (l : List K) (h : l ≠ []) : ∃ m, lmax l = some m := by
+  cases l with
+  | nil => exact absurd rfl h
+  | cons x xs => simp only [lmax]; cases lmax xs <;> simp
+
+/-- every selected value is the value at an index the mask flags -/
+theorem select_mem {α : Type} (m : List Bool) (l : List α) (v : α) (h : v ∈ select m l) :
+    ∃ i, ∃ (h1 : i < m.length) (h2 : i < l.length), m[i] = true ∧ l[i] = v := by
+  induction m generalizing l with
+  | nil => simp [select] at h
+  | cons b bs ih =>
+    cases l with
+    | nil => simp [select] at h
+    | cons x xs =>
+      simp only [select] at h
+      cases b with
+      | false =>
+        simp only [Bool.false_eq_true, ↓reduceIte] at h
+        obtain ⟨i, h1, h2, hb, hv⟩ := ih xs h
+        exact ⟨i + 1, by simpa using h1, by simpa using h2, by simpa using hb, by simpa using hv⟩
+      | true =>
+        simp only [↓reduceIte, List.mem_cons] at h
+        rcases h with rfl | h
+        · exact ⟨0, by simp, by simp, by simp, by simp⟩
+        · obtain ⟨i, h1, h2, hb, hv⟩ := ih xs h
+          exact ⟨i + 1, by simpa using h1, by simpa using h2, by simpa using hb, by simpa using hv⟩
+
+/-- **the reported xmin / xmax of a successful fit are attained at used points and bracket every
+used point** (for every geometrical correction factor k > 0): `xmin ≤ x_i ≤ xmax` for all used
+`i`, and both are abscissae of points the `fit range` column flags -/
+theorem c05_xmin_xmax_extreme (model : K → K) (cpk : K) (w : Option K) (k : K) (hk : 0 < k) (nv : Nat)
+    (seg used : List Bool) (xs ys : List K)
+    (hs : (fitOut model cpk w k nv seg used xs ys).success = true) :
+    ∃ lo hi, (fitOut model cpk w k nv seg used xs ys).xmin = some lo ∧
+      (fitOut model cpk w k nv seg used xs ys).xmax = some hi ∧
+      (∃ i, ∃ (h1 : i < used.length) (h2 : i < xs.length), used[i] = true ∧ xs[i] = lo) ∧
+      (∃ j, ∃ (h1 : j < used.length) (h2 : j < xs.length), used[j] = true ∧ xs[j] = hi) ∧
+      ∀ v ∈ select used xs, lo ≤ v ∧ v ≤ hi := by
+  obtain ⟨hmin, hmax⟩ := c05_xmin_xmax model cpk w k hk nv seg used xs ys hs
+  have hne : select used xs ≠ [] := by
+    have he : enough nv used xs = true := by
+      cases h : enough nv used xs
+      · simp [fitOut, h] at hs
+      · rfl
+    simp only [enough, decide_eq_true_eq] at he
+    intro h0; rw [h0] at he; simp at he
+  obtain ⟨lo, hlo⟩ := lmin_isSome_of_ne_nil _ hne
+  obtain ⟨hi, hhi⟩ := lmax_isSome_of_ne_nil _ hne
+  obtain ⟨hlomem, hlole⟩ := lmin_spec _ _ hlo
+  obtain ⟨himem, hile⟩ := lmax_spec _ _ hhi
+  exact ⟨lo, hi, by rw [hmin, hlo], by rw [hmax, hhi], select_mem _ _ _ hlomem, select_mem _ _ _ himem,
+    fun v hv => ⟨hlole v hv, hile v hv⟩⟩
+
 /-! ### depth grid of the plateau search -/
 theorem c05_plateau_grid_length (xmin : K) (n : Nat) (hn : 0 < n) :
     (plateauGrid xmin n).length = n := by
